@@ -141,6 +141,7 @@ MUTANTS = [
         R(NREPL, "            (doseq [request requests]", "            (doseq [request (reverse requests)]")]},
     # ---- C18
     {"id": "C18-revert-order-independent-dispatch", "prop": "C18", "revert": ["57d3903"]},
+    # (F17, a05e19e: 1 hit in 15000 quick runs under VERIF_SEED=777 only - a thorough-tier mutant, not listed for quick)
     {"id": "C18-revert-F8-snapshot-under-lock", "prop": "C18", "revert": ["57d3903", "425145c"]},
     {"id": "C18-remove-method-keeps-cache", "prop": "C18", "edits": [
         R(MULTI, "                self._methods = self._methods.dissoc(key)\n            self._reset_cache()",
